@@ -107,6 +107,7 @@ func runC18(c *run.Ctx) {
 	if !isDiff {
 		r.Ev("list_invocations", 1)
 		format := rng.Pick(g, []string{"txt", "json", "csv", "md", "dot", "", "txt", "json", "csv", "md", "dot", "", "xml"}) // "xml": not a format - an error on both sides
+		format = formatSpelling(c, r, format)
 		opts := observe.ListOpts{Format: format, StopOnError: fail}
 		args := []string{"list", "--dirpath", dir}
 		if format != "" {
@@ -198,6 +199,7 @@ func runC18(c *run.Ctx) {
 			return
 		}
 		format := rng.Pick(g, []string{"txt", "csv", "md", "dot", "", "txt", "csv", "md", "dot", "", "json"}) // diff has no json format
+		format = formatSpelling(c, r, format)
 		opts := observe.DiffOpts{Format: format, StopOnError: fail, Names: [2]string{"dir1", "dir2"}}
 		d1, d2 := dir, dir2
 		if g.P(0.5) {
@@ -298,4 +300,22 @@ func firstDiffText(a, b string) string {
 		hb = len(b)
 	}
 	return fmt.Sprintf("first difference at byte %d (lengths %d/%d): expected …%q… got …%q…", i, len(a), len(b), a[lo:ha], b[lo:hb])
+}
+
+// formatSpelling sometimes re-spells a format name with upper-case letters (JSON, Csv, Md): whatever the tool makes of such a
+// name - an unknown format, or the format it resembles - the command line and the library must make the same of it. The draw
+// comes from a stream of its own, so that the rest of the case is what it was before this was added.
+func formatSpelling(c *run.Ctx, r *run.CaseResult, format string) string {
+	g := c.R("formatspelling")
+	if format == "" || !g.P(0.15) {
+		return format
+	}
+	r.Ev("format_names_with_capitals", 1)
+	switch g.Intn(3) {
+	case 0:
+		return strings.ToUpper(format)
+	case 1:
+		return strings.ToUpper(format[:1]) + format[1:]
+	}
+	return format[:len(format)-1] + strings.ToUpper(format[len(format)-1:])
 }
